@@ -181,3 +181,134 @@ m("C05", "refactor-repeat-leave-list", C,
             outer += self._leave_assignment(names)''',
   '''        if node.local:
             outer.extend(self._leave_assignment(names))''', expect="silent")
+
+# ---- C02 -------------------------------------------------------------------
+m("C02", "quote-drops-gt", C,
+  '''                    if '>' in target:
+                        target = target.replace('>', '&gt;')
+''', '')
+m("C02", "quote-amp-last", C,
+  '''                    if '&' in target:
+                        target = target.replace('&', '&amp;')
+                    if '<' in target:
+                        target = target.replace('<', '&lt;')
+                    if '>' in target:
+                        target = target.replace('>', '&gt;')
+''',
+  '''                    if '<' in target:
+                        target = target.replace('<', '&lt;')
+                    if '>' in target:
+                        target = target.replace('>', '&gt;')
+                    if '&' in target:
+                        target = target.replace('&', '&amp;')
+''')
+m("C02", "quote-not-escaped", C,
+  '''                    if quote is not None and quote in target:
+                        target = target.replace(quote, quote_entity)
+''', '')
+m("C02", "number-subclass-unescaped", C,
+  '''            if __tt is int or __tt is float:
+                return str(target)
+            __markup = getattr(target, "__html__", None)''',
+  '''            if isinstance(target, (int, float)):
+                return str(target)
+            __markup = getattr(target, "__html__", None)''')
+m("C02", "translated-returned-raw", C,
+  '''                target = str(target) if target is __converted \\
+                         else __converted
+            else:
+                return __markup()''',
+  '''                if target is not __converted:
+                    return __converted
+                target = str(target)
+            else:
+                return __markup()''')
+m("C02", "precheck-misses-apostrophe", C,
+  '''r"g_re_needs_escape = re.compile(r'[&<>\\"\\']').search")''',
+  '''r"g_re_needs_escape = re.compile(r'[&<>\\"]').search")''')
+m("C02", "content-routing-inverted", C,
+  '''        if node.char_escape:
+            body += template(
+                "NAME=__quote(NAME, None, '\\255', None, None)",
+                NAME=name,
+            )
+        else:
+            body += template("NAME = __convert(NAME)", NAME=name)''',
+  '''        if not node.char_escape:
+            body += template(
+                "NAME=__quote(NAME, None, '\\255', None, None)",
+                NAME=name,
+            )
+        else:
+            body += template("NAME = __convert(NAME)", NAME=name)''')
+m("C02", "attr-escape-without-quote", ZP,
+  '''            char_escape = ('&', '<', '>', quote)''',
+  '''            char_escape = ('&', '<', '>')''')
+m("C02", "dict-attr-single-quote-written", ZP,
+  '''                            ('&', '<', '>', '"'),
+                            '"',''',
+  '''                            ('&', '<', '>', '"'),
+                            "'",''')
+m("C02", "text-never-escaped-structure-default", ZP,
+  '''        char_escape = ('&', '<', '>') if key == 'text' else ()
+        content = nodes.Content(value, char_escape, translate)''',
+  '''        char_escape = ('&', '<', '>') if key != 'structure' and translate else ()
+        content = nodes.Content(value, char_escape, translate)''')
+m("C02", "comment-unescaped", ZP,
+  '''        char_escape = ('&', '<', '>') if self.escape else ()
+        expression = nodes.Substitution(node[4:-3], char_escape)''',
+  '''        char_escape = ()
+        expression = nodes.Substitution(node[4:-3], char_escape)''')
+m("C02", "interpolation-parts-as-values", C,
+  '''                        compiler = engine.parse(string)
+                        body += compiler.assign_text(target)''',
+  '''                        compiler = engine.parse(string)
+                        body += compiler.assign_value(target)''')
+m("C02", "substitution-loses-escape-set", C,
+  '''        compiler = engine.parse(node.value, char_escape=node.char_escape)
+        return compiler.assign_text(target)''',
+  '''        compiler = engine.parse(node.value)
+        return compiler.assign_text(target)''')
+m("C02", "entity-of-other-quote", C,
+  '''        entity = char2entity(quote or '\\0')
+
+        return template(''',
+  '''        entity = char2entity('"')
+
+        return template(''')
+m("C02", "dict-value-not-escaped", C,
+  '''                    "QUOTE_FUNC(value, QUOTE, QUOTE_ENTITY, None, None) + "''',
+  '''                    "str(value) + "''')
+m("C02", "refactor-quote-elif", C,
+  '''        if target is None:
+            return
+
+        if target is default_marker:
+            return default
+
+        __tt = type(target)
+
+        if __tt is encoded:
+            target = decode(target)
+        elif __tt is not str:
+            if __tt is int or __tt is float:
+                return str(target)
+            __markup''',
+  '''        if target is None:
+            return
+        elif target is default_marker:
+            return default
+
+        __tt = type(target)
+
+        if __tt is encoded:
+            target = decode(target)
+        elif __tt is not str:
+            if __tt is float or __tt is int:
+                return str(target)
+            __markup''', expect="silent")
+m("C02", "refactor-content-name", C,
+  '''        name = "__content"
+        body = self._engine(node.expression, store(name))''',
+  '''        name = "__text"
+        body = self._engine(node.expression, store(name))''', expect="silent")
